@@ -70,6 +70,18 @@ Proof.
     apply forallb_forall. intros f Hin. rewrite forallb_forall in Hf. rewrite Forall_forall in H. apply H; auto.
 Qed.
 
+Lemma dplain_okann E : forall a, dplain E a = true -> okann E a = true.
+Proof.
+  induction a using ann_ind'; cbn [dplain okann]; intros Hc; try reflexivity; try discriminate; auto.
+  - apply andb_prop in Hc. destruct Hc as [_ Hc]. auto.
+  - apply andb_prop in Hc. destruct Hc as [Hc H2]. apply andb_prop in Hc. destruct Hc as [_ H1]. rewrite IHa1, IHa2; auto.
+  - apply forallb_forall. intros a Hin. rewrite forallb_forall in Hc. rewrite Forall_forall in H. apply H; auto.
+  - apply forallb_forall. intros a Hin. rewrite forallb_forall in Hc. rewrite Forall_forall in H. apply H; auto.
+  - destruct v; [discriminate|]. auto.
+  - apply andb_prop in Hc. destruct Hc as [Hc Hf]. apply andb_prop in Hc. destruct Hc as [_ Hok]. rewrite Hok. cbn [andb].
+    apply forallb_forall. intros f Hin. rewrite forallb_forall in Hf. rewrite Forall_forall in H. apply H; auto.
+Qed.
+
 (* where the payload is the value itself: a union keeps it when nothing below it coerces, or when
    it is an Optional (the other variant's validator never turns None into something else) *)
 Fixpoint dident (a : ann) : bool :=
@@ -510,3 +522,18 @@ Section CompleteD.
     - discriminate.
   Qed.
 End CompleteD.
+
+(* re-validating what a derived validator returned (with C07's soundness: the payload has the type) *)
+Theorem derived_fixpoint (E : env) :
+  (forall k x y, oracle E k x = Some y -> exact_type y (okind_type k) = true) ->
+  forall a, dplain E a = true -> dident a = true ->
+  forall v, derive false a = Ok v ->
+  forall n n' x w, run E Sync n v x = OValid w -> aheight a < n' -> hproper E w = true ->
+    run E Sync n' v w = OValid w.
+Proof.
+  intros Hor a Hc Hi v Hd n n' x w Hr Hn Hp.
+  pose proof (derive_sound_all E Hor a (dplain_okann E a Hc) false v Hd n x w Hr) as Ht.
+  destruct (derive_complete_default E a Hc v Hd n' w Hn Hp) as [_ C]. destruct (C Ht) as [w' [R I]].
+  rewrite R. f_equal. apply I. exact Hi.
+Qed.
+
